@@ -44,6 +44,9 @@ type storeWorld struct {
 	desc   []string
 	ginErr *bytes.Buffer
 	nrun   int
+
+	concurrentPulls bool
+	staleDigests    map[string]bool
 }
 
 var (
@@ -93,7 +96,7 @@ func storeEnsureKey() {
 func newStoreWorld(t *testing.T, sim *verifsim.Sim, prop string) *storeWorld {
 	storeEnsureKey()
 	storeRunSeq++
-	w := &storeWorld{t: t, prop: prop, sim: sim}
+	w := &storeWorld{t: t, prop: prop, sim: sim, staleDigests: map[string]bool{}}
 	w.dir = filepath.Join(verifScratch(), "store", "run"+strconv.Itoa(storeRunSeq), "models")
 	os.RemoveAll(filepath.Dir(w.dir))
 	if err := os.MkdirAll(w.dir, 0o755); err != nil {
@@ -314,6 +317,7 @@ type auditProblem struct {
 	name   string
 	kind   string // layer-missing | layer-corrupt | layer-size
 	detail string
+	digest string
 }
 
 // audit: every name that resolves to a readable manifest has all its layers
@@ -337,11 +341,11 @@ func (s *storeSnapshot) audit(checkSize bool) []auditProblem {
 			sum, ok := s.blobs[fn]
 			switch {
 			case !ok:
-				out = append(out, auditProblem{n, "layer-missing", fmt.Sprintf("%s names layer %s which is not in the blob store", n, shortDigest(l.Digest))})
+				out = append(out, auditProblem{n, "layer-missing", fmt.Sprintf("%s names layer %s which is not in the blob store", n, shortDigest(l.Digest)), l.Digest})
 			case "sha256:"+sum != l.Digest:
-				out = append(out, auditProblem{n, "layer-corrupt", fmt.Sprintf("%s names layer %s but the blob file has content sha256:%s (%d bytes)", n, shortDigest(l.Digest), sum[:12], s.sizes[fn])})
+				out = append(out, auditProblem{n, "layer-corrupt", fmt.Sprintf("%s names layer %s but the blob file has content sha256:%s (%d bytes)", n, shortDigest(l.Digest), sum[:12], s.sizes[fn]), l.Digest})
 			case checkSize && s.sizes[fn] != l.Size:
-				out = append(out, auditProblem{n, "layer-size", fmt.Sprintf("%s names layer %s with size %d but the blob file has %d bytes", n, shortDigest(l.Digest), l.Size, s.sizes[fn])})
+				out = append(out, auditProblem{n, "layer-size", fmt.Sprintf("%s names layer %s with size %d but the blob file has %d bytes", n, shortDigest(l.Digest), l.Size, s.sizes[fn]), l.Digest})
 			}
 		}
 	}
